@@ -32,7 +32,9 @@ func TestVerifC09(t *testing.T) {
 		}
 		r := c.Rand(n, 0)
 		// fresh hosts per world so that nothing cached from an earlier world is reused (addresses carry unique labels anyway)
-		hosts := []string{s.Host(2 + r.Intn(3)), s.Host(5 + r.Intn(3)), s.AltHost(8)}
+		k := 2 + r.Intn(3)
+		// the third host shares its IP address with the first and differs only in the port
+		hosts := []string{s.Host(k), s.Host(5 + r.Intn(3)), s.AltHost(k)}
 		o := world.DefaultOpts(r)
 		if o.Anomaly == 0 {
 			o.Anomaly = 10
